@@ -64,6 +64,13 @@ def judge(ctx, scs, obs, keys_of_interest, classify):
         e = sc['expect']
         req = sc['req']
         rep = {'scenario': brief(req), 'expected': e, 'observed': {k: o.get(k) for k in ('status', 'body', 'forwarded', 'host', 'headers', 'trailers', 'err', 'wire')}}
+        if o.get('err') and (o['err'].startswith('h1: ') or o['err'].startswith('h2: stream reset')) and 'timeout' not in o['err']:
+            # the connection was healthy (its baseline request had just been served) and the proxy ended this exchange without a response
+            sig = {'check': ctx.prop, 'proto': req['proto'], 'fam': req['fam'], 'kind': 'no_response'}
+            sig.update(classify(sc, 'no_response', None) or {})
+            ctx.violation(sig, 'the proxy ended the exchange without a response (%s) | scenario %s' % (o['err'], brief(req)), rep)
+            n += 1
+            continue
         if o.get('err'):
             errs += 1
             if errs > max(3, len(scs) // 50):
